@@ -83,7 +83,7 @@ func newCompressionPool(
 func (c *compressionPool) Decompress(dst *bytes.Buffer, src *bytes.Buffer, readMaxBytes int64) *Error {
 	decompressor, err := c.getDecompressor(src)
 	if err != nil {
-		return errorf(CodeInvalidArgument, "get decompressor: %w", err)
+		return errorf(CodeInvalidArgument, "get decompressor: %w", hideEOF(err))
 	}
 	reader := io.Reader(decompressor)
 	if readMaxBytes > 0 && readMaxBytes < math.MaxInt64 {
@@ -92,13 +92,13 @@ func (c *compressionPool) Decompress(dst *bytes.Buffer, src *bytes.Buffer, readM
 	bytesRead, err := dst.ReadFrom(reader)
 	if err != nil {
 		_ = c.putDecompressor(decompressor)
-		return errorf(CodeInvalidArgument, "decompress: %w", err)
+		return errorf(CodeInvalidArgument, "decompress: %w", hideEOF(err))
 	}
 	if readMaxBytes > 0 && bytesRead > readMaxBytes {
 		discardedBytes, err := io.Copy(io.Discard, decompressor)
 		_ = c.putDecompressor(decompressor)
 		if err != nil {
-			return errorf(CodeInvalidArgument, "message is larger than configured max %d - unable to determine message size: %w", readMaxBytes, err)
+			return errorf(CodeInvalidArgument, "message is larger than configured max %d - unable to determine message size: %w", readMaxBytes, hideEOF(err))
 		}
 		return errorf(CodeInvalidArgument, "message size %d is larger than configured max %d", bytesRead+discardedBytes, readMaxBytes)
 	}
